@@ -248,12 +248,16 @@ func (s *FaultStore) OpenLTXFile(ctx context.Context, level int, minTXID, maxTXI
 }
 
 func (s *FaultStore) archive(level int, minTXID, maxTXID ltx.TXID, data []byte, idx int, created time.Time) {
+	s.archiveWithImage(level, minTXID, maxTXID, data, idx, created, nil)
+}
+
+func (s *FaultStore) archiveWithImage(level int, minTXID, maxTXID ltx.TXID, data []byte, idx int, created time.Time, img *State) {
 	if s.Locked {
 		s.mu.Lock()
 		defer s.mu.Unlock()
 	}
 	k := FileKey{level, minTXID, maxTXID}
-	e := &ArchEntry{Key: k, Data: data, Event: idx, Created: created}
+	e := &ArchEntry{Key: k, Data: data, Event: idx, Created: created, DBImage: img}
 	s.Arch[k] = append(s.Arch[k], e)
 	s.ArchSeq = append(s.ArchSeq, e)
 }
@@ -280,10 +284,7 @@ func (s *FaultStore) WriteLTXFile(ctx context.Context, level int, minTXID, maxTX
 	var buf bytes.Buffer
 	info, err := s.Inner.WriteLTXFile(ctx, level, minTXID, maxTXID, io.TeeReader(r, &buf))
 	if err == nil {
-		s.archive(level, minTXID, maxTXID, buf.Bytes(), idx, info.CreatedAt)
-		if dbImage != nil {
-			s.ArchSeq[len(s.ArchSeq)-1].DBImage = dbImage
-		}
+		s.archiveWithImage(level, minTXID, maxTXID, buf.Bytes(), idx, info.CreatedAt, dbImage)
 		if f != nil && f.Kind == "fail_after" {
 			s.fire("write_fail_after")
 			err = fmt.Errorf("write (after effect): %w", ErrInjected)
